@@ -392,18 +392,18 @@ theorem Att.streamKind {s : St} (o sid : Nat) (args : List Text) (quit : List Na
       simp only [Bool.or_eq_true, decide_eq_true_eq] at h1
       rcases h1 with (h | h) | h <;> rw [h] <;> decide
     have hsame : SameAtt s (setS s o (match (getS s o).targetHost, rsplitColon (args.getD 3 []) with
-        | none, some (h, p) => { getS s o with targetHost := some h, targetPort := (natOf p).getD 0 }
+        | none, some (h, p) => { getS s o with targetHost := some (hostName s h), targetPort := (natOf p).getD 0 }
         | _, _ => getS s o)) := by
       apply SameAtt.setS
       split <;> rfl
     have hfr := Frame.setS s o (match (getS s o).targetHost, rsplitColon (args.getD 3 []) with
-        | none, some (h, p) => { getS s o with targetHost := some h, targetPort := (natOf p).getD 0 }
+        | none, some (h, p) => { getS s o with targetHost := some (hostName s h), targetPort := (natOf p).getD 0 }
         | _, _ => getS s o)
     have hn_same := notifyS_same (setS s o (match (getS s o).targetHost, rsplitColon (args.getD 3 []) with
-        | none, some (h, p) => { getS s o with targetHost := some h, targetPort := (natOf p).getD 0 }
+        | none, some (h, p) => { getS s o with targetHost := some (hostName s h), targetPort := (natOf p).getD 0 }
         | _, _ => getS s o)) o quit (if args.getD 1 [] = str "NEW" then str "new" else str "succeeded") [] []
     have hn_fr := notifyS_frame (setS s o (match (getS s o).targetHost, rsplitColon (args.getD 3 []) with
-        | none, some (h, p) => { getS s o with targetHost := some h, targetPort := (natOf p).getD 0 }
+        | none, some (h, p) => { getS s o with targetHost := some (hostName s h), targetPort := (natOf p).getD 0 }
         | _, _ => getS s o)) o quit (if args.getD 1 [] = str "NEW" then str "new" else str "succeeded") [] []
     have fr := hfr.trans hn_fr
     refine ⟨a.frame_same (hsame.trans hn_same) fr, ⟨fr.clen, fr.slen, fr.circuits, fr.attacher, by rw [hng]; exact fr.streams⟩, ?_⟩
@@ -771,6 +771,15 @@ theorem Att.step {s : St} (i : In) (a : Att s) : Att (step s i).1 := by
     split
     · exact a
     · exact a.of4 (SameAtt.of_tables rfl rfl) rfl rfl rfl rfl
+  | addrMap name ip =>
+    simp only [TxV.TorState.step, addrUpdate]
+    split
+    · split
+      · exact a.of4 (SameAtt.of_tables rfl rfl) rfl rfl rfl rfl
+      · exact a.of4 (SameAtt.of_tables rfl rfl) rfl rfl rfl rfl
+    · split
+      · exact a
+      · exact a.of4 (SameAtt.of_tables rfl rfl) rfl rfl rfl rfl
 
 /-! ## which circuits and streams are listed -/
 
